@@ -19,4 +19,5 @@ import (
 	_ "fxmc/props/c15"
 	_ "fxmc/props/c16"
 	_ "fxmc/props/c18"
+	_ "fxmc/props/c20"
 )
